@@ -1,9 +1,10 @@
 #!/bin/bash
 # confirm_seed.sh <PROP> <n> : confirm a sub-agent's seeded change in a scratch worktree and store it under /verif/seeded/
 set -u
+# usage: confirm_seed.sh <PROP> <n> [srcdir] [out-index]   (round 2: confirm_seed.sh C02 1 /tmp/wt/C02b_out 3)
 ID=$1; N=$2
-SRC=/tmp/wt/${ID}_out
-OUT=/verif/seeded/${ID}_$N
+SRC=${3:-/tmp/wt/${ID}_out}
+OUT=/verif/seeded/${ID}_${4:-$N}
 export GOFLAGS=-mod=mod GOPROXY=off
 W=$(mktemp -d /tmp/confirm.XXXXXX)
 trap 'git -C /repo worktree remove --force "$W/wt" >/dev/null 2>&1; rm -rf "$W"' EXIT
